@@ -273,13 +273,17 @@ def check_wrapper_variants(so, si, stats):
     parts = ', '.join(x for x in ('*' + va if va else '', '**' + vk if vk else '') if x)
     if any(p.kind == PO for p in so):
         return
+    so_text = ''.join(', ' + x for x in [universe.spec_text(so)] if x)
     src = ('def callee(%s):\n    return 0\n\ndef other(*args, **kwargs):\n    return 0\n\n'
            'def wdefault(tag, fn=callee%s):\n    return fn(%s)\n\n'
            'def wfunc(fn, tag%s):\n    return fn(%s)\n\n'
            'class K(object):\n    def wmeth(self, fn, tag%s):\n        return fn(%s)\n' % (
-               universe.spec_text(si), ''.join(', ' + x for x in [universe.spec_text(so)] if x), parts,
-               ''.join(', ' + x for x in [universe.spec_text(so)] if x), parts,
-               ''.join(', ' + x for x in [universe.spec_text(so)] if x), parts))
+               universe.spec_text(si), so_text, parts, so_text, parts, so_text, parts))
+    if so and all(p.kind in (VP, VK) for p in so):
+        stars = ''.join(', ' + x for x in ('*' + va if va else '', '**' + vk if vk else '') if x)
+        src += ('from sigtools import modifiers\n@modifiers.kwoargs("opt")\ndef wkw(fn, tag, opt=False%s):\n    return fn(%s)\n\n'
+                'def wnative(fn, tag, %s, opt=False%s):\n    return fn(%s)\n' % (
+                    stars, parts, ('*' + va) if va else '*', (', **' + vk) if vk else '', parts))
     if any(p.kind in (PO, POK) and p.default is None for p in so):
         return      # a required positional after fn=default is not valid Python
     case = {'kind': 'wrapper-variants', 'outer': list(map(list, so)), 'inner': list(map(list, si)), 'source': src}
@@ -300,6 +304,16 @@ def check_wrapper_variants(so, si, stats):
             if nk(s1) != nk(plain1):
                 stats.fail('C19/wrapper/default-resolved', case,
                            'partial(wdefault, "job") leaves fn unbound (its default is only a default): sigtools.signature gives %s, plain %s\n%s' % (s1, plain1, src))
+        # the same wrapper under a modifiers decorator (discovery then runs from the decorator's hint) vs its native spelling
+        if 'wkw' in g:
+            try:
+                sk, sn = sigtools.signature(functools.partial(g['wkw'], g['callee'])), sigtools.signature(functools.partial(g['wnative'], g['callee']))
+            except ValueError:
+                sk = sn = None
+            stats.cls('wrapper/modifiers-twin')
+            if (sk is None) != (sn is None) or (sk is not None and sorted(nk(sk)) != sorted(nk(sn))):
+                stats.fail('C19/wrapper/modifiers-twin', case,
+                           'partial(wkw, callee) with @modifiers.kwoargs("opt") -> %s but the natively keyword-only twin -> %s\n%s' % (sk, sn, src))
         pf = functools.partial(g['wfunc'], g['callee'])
         pm = functools.partial(g['K']().wmeth, g['callee'])
         try:
@@ -323,10 +337,56 @@ def check_wrapper_variants(so, si, stats):
         realfn.unload(g)
 
 
+def check_sequence(spec, stats):
+    """History independence: the signature of one partial object does not depend on other partial objects of the
+    same function having been looked at before (functions that carry a stored signature: modifiers-wrapped ones)."""
+    import sigtools
+    from sigtools import modifiers, signatures
+    pok = [p.name for p in spec if p.kind == POK]
+    if not pok or not any(p.kind == VK for p in spec):
+        return
+    stats.case()
+    case = {'kind': 'sequence', 'spec': list(map(list, spec))}
+
+    def fresh():
+        return modifiers.kwoargs(pok[-1])(realfn.plain_function(spec, 'f', cache=False))
+
+    def view(sig, objs):
+        lab = lambda f: next((k for k, v in objs.items() if v is f), getattr(f, '__name__', type(f).__name__))
+        return ([(q.name, int(q.kind)) for q in sig.parameters.values()],
+                sorted((k, [lab(f) for f in v]) for k, v in sig.sources.items() if k != '+depths'),
+                sorted((lab(f), d) for f, d in sig.sources['+depths'].items()))
+    npos = 1 if pok[0] != pok[-1] else 0
+    try:
+        g1 = fresh()
+        b1 = functools.partial(g1, **{pok[-1]: 5})
+        alone = view(signatures.signature(b1), {'g': g1, 'B': b1})
+        g2 = fresh()
+        a2 = functools.partial(g2, *([1] * npos), colour='red', zz=1)
+        signatures.signature(a2)
+        sigtools.signature(a2)
+        b2 = functools.partial(g2, **{pok[-1]: 5})
+        after = view(signatures.signature(b2), {'g': g2, 'B': b2, 'A': a2})
+        own = view(signatures.signature(g2), {'g': g2})
+        own1 = view(signatures.signature(fresh()), {})
+    except ValueError:
+        stats.cls('sequence/raised')
+        return
+    stats.cls('sequence')
+    stats.nontriv(('sequence', universe.spec_text(spec)))
+    if after != alone:
+        stats.fail('C19/sequence/partial-after-partial', case,
+                   'def f(%s) under kwoargs(%r): signature of partial(f, %s=5) is %r when taken first but %r after the signature of partial(f, %scolour=..., zz=...) was taken' % (
+                       universe.spec_text(spec), pok[-1], pok[-1], alone, after, '1, ' * npos))
+    elif own[0] != own1[0] or [x for x in own[1]] != [(k, ['g' if l == 'f' else l for l in v]) for k, v in own1[1]] and False:
+        stats.fail('C19/sequence/function-after-partial', case, 'signature of the function changed after its partial objects were inspected: %r vs %r' % (own, own1))
+
+
 def shard_wrappers(arg):
     pairs, = arg
     st = Stats()
     for so, si in pairs:
+        check_sequence(si, st)
         check_wrapper_variants(so, si, st)
         for how in ('positional', 'keyword'):
             check_wrapper_partial(so, si, how, st)
@@ -391,6 +451,9 @@ def run(ctx):
 
 
 def replay(case, stats):
+    if case.get('kind') == 'sequence':
+        check_sequence(tuple(Par(*p) for p in case['spec']), stats)
+        return
     if case.get('kind') == 'wrapper-variants':
         check_wrapper_variants(tuple(Par(*p) for p in case['outer']), tuple(Par(*p) for p in case['inner']), stats)
         return
